@@ -109,25 +109,84 @@ Section Clear.
   Definition selected (only skip : list string) (t : string) : bool :=
     if nonempty only then memb t only else negb (memb t skip).
 
+  (* is the user prompted?  only when something would be deleted and the call is not forced *)
+  Definition prompts (only skip : list string) (st : state) (force : bool) : bool :=
+    nonempty (existing_paths only skip st) && negb force.
+
+  (* the paths named in the question / in the refusal message *)
+  Definition announced (only skip : list string) (st : state) : list string := existing_paths only skip st.
+
+  (* ---- sessions: several calls made by one process, on the same directory as the previous calls left
+     it, or on a fresh copy of the initial directory (another dataset directory).  The code keeps no
+     state between calls, so the model of a session is the fold of `clear`. *)
+  Record call := { k_only : list string; k_skip : list string; k_force : bool; k_yes : bool; k_fresh : bool }.
+  Definition consent_of (k : call) : bool := k_force k || k_yes k.
+
+  (* the directory after an outcome: the paths acted on are gone, everything else is as it was
+     (no candidate lies inside another one: Props/C19.v C19_candidates_independent) *)
+  Definition after (st : state) (o : outcome) : state :=
+    match o with
+    | Done acts => List.filter (fun e => negb (memb (fst e) (map fst acts))) st
+    | _ => st
+    end.
+
+  Definition call_state (st0 cur : state) (k : call) : state := if k_fresh k then st0 else cur.
+  Definition run_call (st0 cur : state) (k : call) : outcome :=
+    clear (k_only k) (k_skip k) (call_state st0 cur k) (consent_of k).
+
+  Fixpoint session (st0 cur : state) (ks : list call) : list outcome * state :=
+    match ks with
+    | [] => ([], cur)
+    | k :: ks' =>
+        let o := run_call st0 cur k in
+        let r := session st0 (after (call_state st0 cur k) o) ks' in
+        (o :: fst r, snd r)
+    end.
+
 End Clear.
 
 (* the instance for the tree under test *)
 Definition clear_repo := clear Tables.csv_files Tables.feature_dirs Tables.records_data_rel.
+Definition prompts_repo := prompts Tables.csv_files Tables.feature_dirs Tables.records_data_rel.
+Definition announced_repo := announced Tables.csv_files Tables.feature_dirs Tables.records_data_rel.
+Definition session_repo := session Tables.csv_files Tables.feature_dirs Tables.records_data_rel.
 
-(* ---- correspondence: one case = (only, skip, state, consent) and what the implementation did *)
+(* ---- correspondence: one case = an initial directory state and a session of calls, with what the
+   implementation did at every call *)
 Inductive obs_outcome := ORet | ORefused | OCrash.
 Definition obs_outcome_eqb (a b : obs_outcome) : bool :=
   match a, b with ORet, ORet | ORefused, ORefused | OCrash, OCrash => true | _, _ => false end.
 
-Record case := {
-  c_only : list string; c_skip : list string; c_state : state; c_consent : bool;
+Record step := {
+  s_call : call;
   o_outcome : obs_outcome;
   o_removed : list string;       (* paths (relative) that existed before and not after, reverse-sorted *)
+  o_asked : bool;                (* input() was called *)
+  o_announced : option (list string);   (* the paths named in the question, else in the refusal message, when one was seen *)
 }.
+Record case := { c_state : state; c_steps : list step }.
 
-Definition check_case (c : case) : bool :=
-  match clear_repo (c_only c) (c_skip c) (c_state c) (c_consent c) with
-  | Done acts => obs_outcome_eqb (o_outcome c) ORet && eqb (map fst acts) (o_removed c)
-  | Refused => obs_outcome_eqb (o_outcome c) ORefused && eqb (o_removed c) []
-  | Crash => obs_outcome_eqb (o_outcome c) OCrash
+Definition check_step (st : state) (s : step) : bool :=
+  let k := s_call s in
+  eqb (o_asked s) (prompts_repo (k_only k) (k_skip k) st (k_force k)) &&
+  match o_announced s with
+  | Some l => eqb (ssort l) (ssort (announced_repo (k_only k) (k_skip k) st))
+  | None => true
+  end &&
+  match clear_repo (k_only k) (k_skip k) st (consent_of k) with
+  | Done acts => obs_outcome_eqb (o_outcome s) ORet && eqb (map fst acts) (o_removed s)
+  | Refused => obs_outcome_eqb (o_outcome s) ORefused && eqb (o_removed s) []
+  | Crash => obs_outcome_eqb (o_outcome s) OCrash
   end.
+
+Fixpoint check_steps (st0 cur : state) (ss : list step) : bool :=
+  match ss with
+  | [] => true
+  | s :: ss' =>
+      let k := s_call s in
+      let st := call_state st0 cur k in
+      check_step st s &&
+      check_steps st0 (after st (clear_repo (k_only k) (k_skip k) st (consent_of k))) ss'
+  end.
+
+Definition check_case (c : case) : bool := check_steps (c_state c) (c_state c) (c_steps c).
